@@ -67,8 +67,11 @@ func MakeType(t *rapid.T, base string, mod *Module, label string) *Type {
 		n := rapid.IntRange(2, 4).Draw(t, label+"-nenum")
 		v := rapid.IntRange(0, 3).Draw(t, label+"-v0")
 		names := []string{"red", "green", "blue", "x-ray"}
-		if rapid.IntRange(0, 5).Draw(t, label+"-numeric-names") == 0 {
+		switch rapid.IntRange(0, 7).Draw(t, label+"-name-style") {
+		case 0:
 			names = []string{"1", "0", "other", "10"} // names that read as numbers, crossing the assigned values
+		case 1:
+			names = []string{"a b", "tab\tinside", "semi;colon", "curly{"} // an enum name is any string: blanks, a tab, punctuation
 		}
 		vals := make([]int, n)
 		for i := 0; i < n; i++ {
